@@ -1,10 +1,640 @@
 package main
 
-import "go/ast"
+import (
+	"fmt"
+	"go/ast"
+	"go/token"
+	"go/types"
+	"path/filepath"
+	"strconv"
+)
 
-// hbrw adds memory-access tracking for the happens-before monitor (C19).
-type hbrw struct{ r *rw }
+// hbrw adds memory-access tracking for the happens-before monitor (C19). It
+// runs after the synchronisation lowering. Every read or write of memory that
+// another goroutine could reach - fields reached through a pointer, package
+// level variables, slice elements, maps, dereferences, copy/append/string
+// ranges, buffers handed to Read/Write - is routed through vs.Rd / vs.Wr /
+// vs.MR / vs.MW / vs.Copy / vs.IORead / vs.IOWrite. Local variables that are
+// accessed by name are not tracked.
+type hbrw struct {
+	r     *rw
+	pos   token.Pos
+	count int
+}
 
 func newHB(r *rw) *hbrw { return &hbrw{r: r} }
 
-func (h *hbrw) file(f *ast.File) { fatal("-hb not implemented yet") }
+func (h *hbrw) site() ast.Expr {
+	p := h.r.fset.Position(h.pos)
+	return &ast.BasicLit{Kind: token.STRING, Value: strconv.Quote(fmt.Sprintf("%s:%d", filepath.Base(p.Filename), p.Line))}
+}
+
+func (h *hbrw) at(n ast.Node) {
+	if n != nil && n.Pos().IsValid() {
+		h.pos = n.Pos()
+	}
+}
+
+func (h *hbrw) vs(fn string, args ...ast.Expr) *ast.CallExpr {
+	h.count++
+	return h.r.vs(fn, append(args, h.site())...)
+}
+
+func (h *hbrw) typeOf(e ast.Expr) types.Type { return h.r.typeOf(e) }
+
+func deref(e ast.Expr) ast.Expr { return &ast.ParenExpr{X: &ast.StarExpr{X: e}} }
+func addrOf(e ast.Expr) ast.Expr { return &ast.UnaryExpr{Op: token.AND, X: e} }
+
+func (h *hbrw) file(f *ast.File) {
+	for _, d := range f.Decls {
+		if fd, ok := d.(*ast.FuncDecl); ok && fd.Body != nil {
+			h.block(fd.Body)
+		}
+	}
+}
+
+func (h *hbrw) block(b *ast.BlockStmt) {
+	if b == nil {
+		return
+	}
+	for i, s := range b.List {
+		b.List[i] = h.stmt(s)
+	}
+}
+
+func (h *hbrw) isPkgVar(id *ast.Ident) bool {
+	if id.Name == "_" {
+		return false
+	}
+	v, ok := h.r.info.Uses[id].(*types.Var)
+	if !ok {
+		return false
+	}
+	return !v.IsField() && v.Parent() == h.r.pkg.Scope()
+}
+
+// shared reports whether the (original) expression designates memory that
+// another goroutine could reach.
+func (h *hbrw) shared(e ast.Expr) bool {
+	switch x := e.(type) {
+	case *ast.ParenExpr:
+		return h.shared(x.X)
+	case *ast.Ident:
+		return h.isPkgVar(x)
+	case *ast.StarExpr:
+		return true
+	case *ast.SelectorExpr:
+		sel := h.r.info.Selections[x]
+		if sel == nil || sel.Kind() != types.FieldVal {
+			return false
+		}
+		return sel.Indirect() || h.shared(x.X)
+	case *ast.IndexExpr:
+		t := h.typeOf(x.X)
+		if t == nil {
+			return false
+		}
+		switch u := t.Underlying().(type) {
+		case *types.Slice:
+			return true
+		case *types.Pointer:
+			_ = u
+			return true
+		case *types.Array:
+			return h.shared(x.X)
+		}
+	}
+	return false
+}
+
+func isPointer(t types.Type) bool {
+	if t == nil {
+		return false
+	}
+	_, ok := t.Underlying().(*types.Pointer)
+	return ok
+}
+
+// addr rewrites the operands of an address computation without recording an
+// access to the designated object itself.
+func (h *hbrw) addr(e ast.Expr) ast.Expr {
+	switch x := e.(type) {
+	case *ast.ParenExpr:
+		x.X = h.addr(x.X)
+		return x
+	case *ast.Ident:
+		return x
+	case *ast.SelectorExpr:
+		sel := h.r.info.Selections[x]
+		if sel == nil || sel.Kind() != types.FieldVal {
+			return h.rd(e)
+		}
+		if isPointer(h.typeOf(x.X)) {
+			x.X = h.rd(x.X)
+		} else {
+			x.X = h.addr(x.X)
+		}
+		return x
+	case *ast.IndexExpr:
+		t := h.typeOf(x.X)
+		if t != nil {
+			if _, isArr := t.Underlying().(*types.Array); isArr {
+				x.X = h.addr(x.X)
+				x.Index = h.rd(x.Index)
+				return x
+			}
+			if _, isMap := t.Underlying().(*types.Map); isMap {
+				return h.rd(e)
+			}
+		}
+		x.X = h.rd(x.X)
+		x.Index = h.rd(x.Index)
+		return x
+	case *ast.StarExpr:
+		x.X = h.rd(x.X)
+		return x
+	}
+	return h.rd(e)
+}
+
+func (h *hbrw) isTypeExpr(e ast.Expr) bool {
+	if tv, ok := h.r.info.Types[e]; ok {
+		return tv.IsType()
+	}
+	return false
+}
+
+// rd rewrites an expression evaluated for its value.
+func (h *hbrw) rd(e ast.Expr) ast.Expr {
+	if e == nil {
+		return nil
+	}
+	switch x := e.(type) {
+	case *ast.Ident:
+		if h.isPkgVar(x) {
+			return deref(h.vs("Rd", addrOf(x)))
+		}
+		return x
+	case *ast.ParenExpr:
+		if h.isTypeExpr(x) {
+			return x
+		}
+		x.X = h.rd(x.X)
+		return x
+	case *ast.FuncLit:
+		save := h.pos
+		h.block(x.Body)
+		h.pos = save
+		return x
+	case *ast.SelectorExpr:
+		sel := h.r.info.Selections[x]
+		if sel == nil {
+			return x // qualified identifier
+		}
+		if sel.Kind() != types.FieldVal {
+			x.X = h.recv(x.X, sel)
+			return x
+		}
+		sh := h.shared(x)
+		n := h.addr(x)
+		if sh {
+			return deref(h.vs("Rd", addrOf(n)))
+		}
+		return n
+	case *ast.IndexExpr:
+		t := h.typeOf(x.X)
+		if t == nil {
+			x.X = h.rd(x.X)
+			x.Index = h.rd(x.Index)
+			return x
+		}
+		switch t.Underlying().(type) {
+		case *types.Map:
+			x.X = h.vs("MR", h.rd(x.X))
+			x.Index = h.rd(x.Index)
+			return x
+		case *types.Slice, *types.Pointer:
+			x.X = h.rd(x.X)
+			x.Index = h.rd(x.Index)
+			return deref(h.vs("Rd", addrOf(x)))
+		case *types.Array:
+			sh := h.shared(x)
+			x.X = h.addr(x.X)
+			x.Index = h.rd(x.Index)
+			if sh {
+				return deref(h.vs("Rd", addrOf(x)))
+			}
+			return x
+		case *types.Signature:
+			return x // generic instantiation
+		}
+		x.X = h.rd(x.X)
+		x.Index = h.rd(x.Index)
+		return x
+	case *ast.SliceExpr:
+		if t := h.typeOf(x.X); t != nil {
+			if _, isArr := t.Underlying().(*types.Array); isArr {
+				x.X = h.addr(x.X)
+			} else {
+				x.X = h.rd(x.X)
+			}
+		} else {
+			x.X = h.rd(x.X)
+		}
+		x.Low, x.High, x.Max = h.rd(x.Low), h.rd(x.High), h.rd(x.Max)
+		return x
+	case *ast.StarExpr:
+		if h.isTypeExpr(x) {
+			return x
+		}
+		return deref(h.vs("Rd", h.rd(x.X)))
+	case *ast.UnaryExpr:
+		if x.Op == token.AND {
+			if cl, ok := x.X.(*ast.CompositeLit); ok {
+				x.X = h.rd(cl)
+				return x
+			}
+			x.X = h.addr(x.X)
+			return x
+		}
+		x.X = h.rd(x.X)
+		return x
+	case *ast.BinaryExpr:
+		x.X, x.Y = h.rd(x.X), h.rd(x.Y)
+		return x
+	case *ast.CallExpr:
+		return h.call(x)
+	case *ast.CompositeLit:
+		isStruct := false
+		if t := h.typeOf(x); t != nil {
+			_, isStruct = t.Underlying().(*types.Struct)
+		}
+		for i, el := range x.Elts {
+			if kv, ok := el.(*ast.KeyValueExpr); ok {
+				if !isStruct {
+					kv.Key = h.rd(kv.Key)
+				}
+				kv.Value = h.rd(kv.Value)
+			} else {
+				x.Elts[i] = h.rd(el)
+			}
+		}
+		return x
+	case *ast.TypeAssertExpr:
+		x.X = h.rd(x.X)
+		return x
+	case *ast.KeyValueExpr:
+		x.Value = h.rd(x.Value)
+		return x
+	}
+	return e
+}
+
+// recv rewrites the receiver operand of a method call or method value.
+func (h *hbrw) recv(x ast.Expr, sel *types.Selection) ast.Expr {
+	fn, _ := sel.Obj().(*types.Func)
+	ptrRecv := false
+	if fn != nil {
+		if sig, ok := fn.Type().(*types.Signature); ok && sig.Recv() != nil {
+			ptrRecv = isPointer(sig.Recv().Type())
+		}
+	}
+	if ptrRecv && !isPointer(h.typeOf(x)) {
+		return h.addr(x) // implicit &x
+	}
+	if sel.Indirect() && !isPointer(h.typeOf(x)) {
+		return h.addr(x)
+	}
+	return h.rd(x)
+}
+
+func (h *hbrw) builtin(id *ast.Ident) string {
+	if _, ok := h.r.info.Uses[id].(*types.Builtin); ok {
+		return id.Name
+	}
+	return ""
+}
+
+func isByteSlice(t types.Type) bool {
+	if t == nil {
+		return false
+	}
+	s, ok := t.Underlying().(*types.Slice)
+	if !ok {
+		return false
+	}
+	b, ok := s.Elem().Underlying().(*types.Basic)
+	return ok && (b.Kind() == types.Uint8)
+}
+
+func isString(t types.Type) bool {
+	if t == nil {
+		return false
+	}
+	b, ok := t.Underlying().(*types.Basic)
+	return ok && b.Info()&types.IsString != 0
+}
+
+func (h *hbrw) call(c *ast.CallExpr) ast.Expr {
+	// conversions
+	if h.isTypeExpr(c.Fun) {
+		if len(c.Args) == 1 {
+			at := h.typeOf(c.Args[0])
+			arg := h.rd(c.Args[0])
+			if isString(h.typeOf(c)) && isByteSlice(at) {
+				return h.vs("StrOf", arg)
+			}
+			c.Args[0] = arg
+		}
+		return c
+	}
+	if id, ok := c.Fun.(*ast.Ident); ok {
+		switch h.builtin(id) {
+		case "copy":
+			st := h.typeOf(c.Args[1])
+			d, s := h.rd(c.Args[0]), h.rd(c.Args[1])
+			if isString(st) {
+				return h.vs("CopyStr", d, s)
+			}
+			return h.vs("Copy", d, s)
+		case "append":
+			for i := range c.Args {
+				last := i == len(c.Args)-1
+				t := h.typeOf(c.Args[i])
+				c.Args[i] = h.rd(c.Args[i])
+				if last && c.Ellipsis.IsValid() && t != nil && i > 0 {
+					if _, isSl := t.Underlying().(*types.Slice); isSl {
+						c.Args[i] = h.vs("RangeR", c.Args[i])
+					}
+				}
+			}
+			return c
+		case "delete":
+			c.Args[0] = h.vs("MW", h.rd(c.Args[0]))
+			c.Args[1] = h.rd(c.Args[1])
+			return c
+		case "len":
+			if t := h.typeOf(c.Args[0]); t != nil {
+				if _, isMap := t.Underlying().(*types.Map); isMap {
+					c.Args[0] = h.vs("MR", h.rd(c.Args[0]))
+					return c
+				}
+			}
+			c.Args[0] = h.rd(c.Args[0])
+			return c
+		case "":
+		default:
+			for i, a := range c.Args {
+				if !h.isTypeExpr(a) {
+					c.Args[i] = h.rd(a)
+				}
+			}
+			return c
+		}
+	}
+	// calls into the scheduler runtime generated by the lowering
+	if se, ok := c.Fun.(*ast.SelectorExpr); ok {
+		if pk, ok := se.X.(*ast.Ident); ok && pk.Name == "vs" && h.r.info.Uses[pk] == nil && h.r.info.Selections[se] == nil {
+			for i, a := range c.Args {
+				if se.Sel.Name == "SortedKeys" && i == 0 {
+					c.Args[i] = h.vs("MR", h.rd(a))
+					continue
+				}
+				c.Args[i] = h.rd(a)
+			}
+			return c
+		}
+	}
+	ioKind := ""
+	switch f := c.Fun.(type) {
+	case *ast.SelectorExpr:
+		sel := h.r.info.Selections[f]
+		switch {
+		case sel == nil: // pkg.Func
+		case sel.Kind() == types.FieldVal:
+			c.Fun = h.rd(f)
+		default:
+			// a Read/Write style method of a type that lives outside the package
+			if fn, ok := sel.Obj().(*types.Func); ok && fn.Pkg() != h.r.pkg {
+				switch fn.Name() {
+				case "Read", "ReadAt":
+					ioKind = "IORead"
+				case "Write", "WriteAt":
+					ioKind = "IOWrite"
+				}
+			}
+			f.X = h.recv(f.X, sel)
+		}
+	case *ast.Ident:
+	default:
+		c.Fun = h.rd(c.Fun)
+	}
+	for i, a := range c.Args {
+		t := h.typeOf(a)
+		c.Args[i] = h.rd(a)
+		if ioKind != "" && i == 0 && isByteSlice(t) {
+			c.Args[i] = h.vs(ioKind, c.Args[i])
+		}
+	}
+	return c
+}
+
+// lv rewrites an assignment target.
+func (h *hbrw) lv(e ast.Expr) ast.Expr {
+	switch x := e.(type) {
+	case *ast.Ident:
+		if h.isPkgVar(x) {
+			return deref(h.vs("Wr", addrOf(x)))
+		}
+		return x
+	case *ast.ParenExpr:
+		x.X = h.lv(x.X)
+		return x
+	case *ast.SelectorExpr:
+		sel := h.r.info.Selections[x]
+		if sel == nil || sel.Kind() != types.FieldVal {
+			return x
+		}
+		sh := h.shared(x)
+		n := h.addr(x)
+		if sh {
+			return deref(h.vs("Wr", addrOf(n)))
+		}
+		return n
+	case *ast.IndexExpr:
+		t := h.typeOf(x.X)
+		if t != nil {
+			switch t.Underlying().(type) {
+			case *types.Map:
+				x.X = h.vs("MW", h.rd(x.X))
+				x.Index = h.rd(x.Index)
+				return x
+			case *types.Array:
+				sh := h.shared(x)
+				x.X = h.addr(x.X)
+				x.Index = h.rd(x.Index)
+				if sh {
+					return deref(h.vs("Wr", addrOf(x)))
+				}
+				return x
+			}
+		}
+		x.X = h.rd(x.X)
+		x.Index = h.rd(x.Index)
+		if t == nil {
+			return x
+		}
+		return deref(h.vs("Wr", addrOf(x)))
+	case *ast.StarExpr:
+		return deref(h.vs("Wr", h.rd(x.X)))
+	}
+	return e
+}
+
+func (h *hbrw) isOutputCall(e ast.Expr) bool {
+	c, ok := e.(*ast.CallExpr)
+	if !ok {
+		return false
+	}
+	se, ok := c.Fun.(*ast.SelectorExpr)
+	if !ok {
+		return false
+	}
+	pk, ok := se.X.(*ast.Ident)
+	if !ok {
+		return false
+	}
+	pn, ok := h.r.info.Uses[pk].(*types.PkgName)
+	if !ok {
+		return false
+	}
+	switch pn.Imported().Path() {
+	case "log":
+		return true
+	case "fmt":
+		return len(se.Sel.Name) > 5 && se.Sel.Name[:5] == "Print"
+	}
+	return false
+}
+
+func (h *hbrw) stmt(s ast.Stmt) ast.Stmt {
+	if s == nil {
+		return nil
+	}
+	h.at(s)
+	switch x := s.(type) {
+	case *ast.BlockStmt:
+		h.block(x)
+	case *ast.ExprStmt:
+		out := h.isOutputCall(x.X)
+		x.X = h.rd(x.X)
+		if out {
+			h.count++
+			return &ast.BlockStmt{List: []ast.Stmt{&ast.ExprStmt{X: h.r.vs("IORelease")}, x}}
+		}
+	case *ast.AssignStmt:
+		for i := range x.Rhs {
+			x.Rhs[i] = h.rd(x.Rhs[i])
+		}
+		if x.Tok != token.DEFINE {
+			for i := range x.Lhs {
+				x.Lhs[i] = h.lv(x.Lhs[i])
+			}
+		}
+	case *ast.IncDecStmt:
+		x.X = h.lv(x.X)
+	case *ast.DeferStmt:
+		if n, ok := h.rd(x.Call).(*ast.CallExpr); ok {
+			x.Call = n
+		}
+	case *ast.GoStmt:
+		if n, ok := h.rd(x.Call).(*ast.CallExpr); ok {
+			x.Call = n
+		}
+	case *ast.ReturnStmt:
+		for i := range x.Results {
+			x.Results[i] = h.rd(x.Results[i])
+		}
+	case *ast.IfStmt:
+		x.Init = h.stmt(x.Init)
+		h.at(x)
+		x.Cond = h.rd(x.Cond)
+		h.block(x.Body)
+		x.Else = h.stmt(x.Else)
+	case *ast.ForStmt:
+		x.Init = h.stmt(x.Init)
+		h.at(x)
+		x.Cond = h.rd(x.Cond)
+		x.Post = h.stmt(x.Post)
+		h.block(x.Body)
+	case *ast.RangeStmt:
+		t := h.typeOf(x.X)
+		x.X = h.rd(x.X)
+		if t != nil {
+			switch u := t.Underlying().(type) {
+			case *types.Slice:
+				x.X = h.vs("RangeR", x.X)
+			case *types.Map:
+				_ = u
+				x.X = h.vs("MR", x.X)
+			}
+		}
+		if x.Tok == token.ASSIGN {
+			if x.Key != nil {
+				x.Key = h.lv(x.Key)
+			}
+			if x.Value != nil {
+				x.Value = h.lv(x.Value)
+			}
+		}
+		h.block(x.Body)
+	case *ast.SwitchStmt:
+		x.Init = h.stmt(x.Init)
+		h.at(x)
+		x.Tag = h.rd(x.Tag)
+		for _, cc := range x.Body.List {
+			cl := cc.(*ast.CaseClause)
+			for i := range cl.List {
+				cl.List[i] = h.rd(cl.List[i])
+			}
+			for i := range cl.Body {
+				cl.Body[i] = h.stmt(cl.Body[i])
+			}
+		}
+	case *ast.TypeSwitchStmt:
+		x.Init = h.stmt(x.Init)
+		switch a := x.Assign.(type) {
+		case *ast.ExprStmt:
+			if ta, ok := a.X.(*ast.TypeAssertExpr); ok {
+				ta.X = h.rd(ta.X)
+			}
+		case *ast.AssignStmt:
+			if ta, ok := a.Rhs[0].(*ast.TypeAssertExpr); ok {
+				ta.X = h.rd(ta.X)
+			}
+		}
+		for _, cc := range x.Body.List {
+			cl := cc.(*ast.CaseClause)
+			for i := range cl.Body {
+				cl.Body[i] = h.stmt(cl.Body[i])
+			}
+		}
+	case *ast.LabeledStmt:
+		x.Stmt = h.stmt(x.Stmt)
+	case *ast.DeclStmt:
+		if gd, ok := x.Decl.(*ast.GenDecl); ok {
+			for _, sp := range gd.Specs {
+				if vsp, ok := sp.(*ast.ValueSpec); ok {
+					for i := range vsp.Values {
+						vsp.Values[i] = h.rd(vsp.Values[i])
+					}
+				}
+			}
+		}
+	case *ast.SendStmt:
+		x.Chan, x.Value = h.rd(x.Chan), h.rd(x.Value)
+	case *ast.SelectStmt:
+		fatal("%s: select statement left after lowering", h.r.fset.Position(x.Pos()))
+	}
+	return s
+}
